@@ -173,8 +173,11 @@ def _methods(cls):
 
 
 def _parse(rel):
+    import warnings
     with open(os.path.join(REPO, rel), encoding="utf-8") as fh:
-        return ast.parse(fh.read(), rel)
+        with warnings.catch_warnings():
+            warnings.simplefilter("ignore")
+            return ast.parse(fh.read(), rel)
 
 
 def _b(x):
